@@ -199,6 +199,10 @@ def run(ctx, rep):
     table_rules(facts, rep)
     flag_decode_rules(facts, rep)
     raw_rules(facts, rep)
+    from rules.C02 import narrow_rules
+    from rules.C02 import limit_rules
+    limit_rules(facts, rep)            # reported as C19/C02-LIMIT: every name/comment the format can hold is accepted, nothing longer is
+    narrow_rules(ctx, facts, rep)      # reported as C19/C02-NARROW: the stored name is the given UTF-8 bytes -- its length field is not a wrapped cast
     flag_rules(ctx, facts, rep, rule="C19-WRITE")
     spec = ctx.spec("appnote.json")
     c = Codec(facts)
